@@ -84,6 +84,13 @@ def gen_inputs(ctx):
     for v2 in (0x019da462, 0x019d9cfe, 0x02facafd, 0x02fac398, 0, 0xffffffff, 0x0488b21f, 0x0488ade5):
         for prv in (True, False):
             out.append(("Import", {"s": T(R.b58check_enc(payload_of(base, v2, prv)))}, ("import-unknown", "foreign")))
+    # the version table itself: every known version and near misses
+    for t in TRIPLES:
+        out.append(("VersionParse", ver4(t), ("version", t)))
+        v = W.VERSIONS[t]
+        for bit in (0, 9, 31):
+            if (v ^ (1 << bit)) not in W.VERSIONS.values():
+                out.append(("VersionParse", B((v ^ (1 << bit)).to_bytes(4, "big")), ("version-unknown",)))
     # malformed strings for import
     good = R.b58check_enc(payload_of(base, W.VERSIONS[("prv", "main", "bip44")], True))
     for s in (good[:-1], good + "1", good[:50] + ("2" if good[50] != "2" else "3") + good[51:], "", "xprv"):
@@ -98,6 +105,8 @@ def describe(ev):
                                                           bytes(i["version"]).hex(), i["node"]["depth"])
     if ev["act"] == "ExtParse":
         return "%s.parse(<%s>)" % ("PrvKeyNode" if i["asPrv"] else "PubKeyNode", i["form"])
+    if ev["act"] == "VersionParse":
+        return "Version.parse(0x%s)" % bytes(i).hex()
     return "BaseWallet.from_extended_key(%r)" % core.untext(i["s"])[:24]
 
 
